@@ -13,6 +13,14 @@
 **             mode=bfs|ladder|pairs   depth=N (0 = fixpoint)  memo=0|1
 **             alias=0|1 (adds set(t, k, v) where k is the key object the tree's own
 **                        iteration yields - the  foreach (k in t) set(t, k, v)  idiom)
+**             cross=0|1 (adds assignment onto an already constructed tree of OTHER element
+**                        types: for every type pair out of {Int->Int, Int->Blob, Int->Probe,
+**                        Probe->Int, String->Probe, Probe->Blob} that shares exactly one side
+**                        with this instance's pair: A=assign(empty Tree<K',V'>, A),
+**                        A=assign(filled Tree<K',V'>, A), with two=1 also B=filled Tree<K',V'>;
+**                        assign(B,A).  The target must end up with the source's types, slot
+**                        sizes, bindings byte for byte; its old contents finalised once.)
+**             table=0|1 (adds A = Tree<..> := Table<..> := A, a round trip through a Table)
 **             ladder: sizes=a,b,c  (key counts; keys=int|str)
 **
 ** Alphabet (simplest first): set(k,v) for every key and value, rem(k) for every key (a
@@ -46,6 +54,14 @@ static int kkind, vkind;        /* 0 int, 1 str, 2 probe, 3 blob (values only) *
 static var keyobj[MAXK];
 static var valobj[2];
 static var blobobj[MAXK][2];    /* blob values: one carrier per (key, value index), all 20 bytes depend on both */
+/* carriers of the other element types, for targets constructed with foreign types (cross=1 / table=1) */
+static var fkey[3][MAXK];       /* by key kind */
+static var fval[4][MAXK][2];    /* by value kind (0 int, 2 probe, 3 blob), key, value index */
+static int cross_op, table_op;
+struct tpair { int kk, vk; };
+static const struct tpair type_pairs[] = { {0, 0}, {0, 3}, {0, 2}, {2, 0}, {1, 2}, {2, 3} };
+static struct tpair foreign[6]; static int nforeign;
+static char xname[16][96];
 static var wrongkey, wrongval;
 static char skeys[MAXK][8];
 static int in_ladder;
@@ -145,15 +161,50 @@ static void make_carriers(void) {
   if (vkind == 3 && blobobj[0][0] == NULL) {
     for (int i = 0; i < K; i++) for (int v = 0; v < 2; v++) { blobobj[i][v] = new_raw(Blob); blob_fill(((struct Blob*)blobobj[i][v])->b, i, v); }
   }
+  if (cross_op || table_op) {
+    for (int i = 0; i < K; i++) {
+      fkey[0][i] = new_raw(Int, $I(i)); fkey[1][i] = new_raw(String, $S(skeys[i])); fkey[2][i] = new_raw(Probe, $I(i));
+      for (int v = 0; v < 2; v++) {
+        fval[0][i][v] = new_raw(Int, $I(v)); fval[2][i][v] = new_raw(Probe, $I(v));
+        fval[3][i][v] = new_raw(Blob); blob_fill(((struct Blob*)fval[3][i][v])->b, i, v);
+      }
+    }
+  }
   led_base = vf_led_live;
+}
+
+static void drop_foreign_carriers(void) {
+  if (!(cross_op || table_op)) return;
+  for (int i = 0; i < K; i++) {
+    for (int kk = 0; kk < 3; kk++) del_raw(fkey[kk][i]);
+    for (int v = 0; v < 2; v++) { del_raw(fval[0][i][v]); del_raw(fval[2][i][v]); del_raw(fval[3][i][v]); }
+  }
+}
+
+static var ktype_of(int kk) { return kk == 0 ? Int : kk == 1 ? String : Probe; }
+static var vtype_of(int vk) { return vk == 2 ? Probe : vk == 3 ? Blob : Int; }
+static const char* kkname(int kk) { return kk == 0 ? "Int" : kk == 1 ? "String" : "Probe"; }
+static const char* vkname(int vk) { return vk == 2 ? "Probe" : vk == 3 ? "Blob" : "Int"; }
+
+/* a tree (or table) constructed with the foreign element types, optionally holding three bindings of its own */
+static var mk_foreign(var container, struct tpair fp, int fill) {
+  var t = new_raw_with(container, tuple(ktype_of(fp.kk), vtype_of(fp.vk)));
+  if (fill) {
+    int vb = NV - 1;
+    set(t, fkey[fp.kk][0], fval[fp.vk][0][vb]);
+    set(t, fkey[fp.kk][K - 1], fval[fp.vk][K - 1][vb]);
+    if (K > 2) set(t, fkey[fp.kk][K / 2], fval[fp.vk][K / 2][0]);
+  }
+  return t;
 }
 
 static void reset(void) {
   /* ledger tokens are never reused: when half of them are spent and nothing but the
   ** argument carriers is live, start a fresh ledger */
-  if ((kkind == 2 || vkind == 2) && vf_led_next > VF_LED_MAX / 2 && vf_led_live == led_base && !vf_led_err[0]) {
+  if ((kkind == 2 || vkind == 2 || cross_op || table_op) && vf_led_next > VF_LED_MAX / 2 && vf_led_live == led_base && !vf_led_err[0]) {
     for (int i = 0; i < K; i++) del_raw(keyobj[i]);
     for (int v = 0; v < 2; v++) del_raw(valobj[v]);
+    drop_foreign_carriers();
     vf_led_reset();
     make_carriers();
   }
@@ -488,13 +539,15 @@ enum { OP_RESIZE0, OP_COPY, OP_ASSIGN_EMPTY, OP_ASSIGN_FULL, OP_NEW_ARGS, OP_SET
        OP_F_GET_WRONGKEY, OP_F_SET_WRONGKEY, OP_F_SET_WRONGVAL, OP_F_REM_WRONGKEY, OP_F_MEM_WRONGKEY,
        OP_F_GET_NULL, OP_F_SET_NULLKEY, OP_F_SET_NULLVAL, OP_F_REM_NULL, OP_F_MEM_NULL,
        OP_F_RESIZE1, OP_F_RESIZELEN, OP_F_RESIZEBIG,
+       OP_X_EMPTY0, OP_X_EMPTY1, OP_X_EMPTY2, OP_X_FULL0, OP_X_FULL1, OP_X_FULL2, OP_B_X0, OP_B_X1, OP_B_X2, OP_VIA_TABLE,
        OP_NMISC };
 
 static const char* miscname[] = { "resize(0)", "A=copy(A)", "A=assign(new,A)", "A=assign(nonempty,A)", "A=new(Tree,K,V,bindings of A...)", "set(first key yielded by iteration itself, other value)",
     "B=copy(A)", "assign(B,A)", "assign(A,B)", "del(B)", "set(B,k0,v)", "rem(B,k0)", "swap(A,B)",
     "get(wrong-type key)", "set(wrong-type key)", "set(wrong-type val)", "rem(wrong-type key)", "mem(wrong-type key)",
     "get(NULL)", "set(NULL,v)", "set(k0,NULL)", "rem(NULL)", "mem(NULL)",
-    "resize(1)", "resize(len)", "resize(len+7)" };
+    "resize(1)", "resize(len)", "resize(len+7)",
+    xname[0], xname[1], xname[2], xname[3], xname[4], xname[5], xname[6], xname[7], xname[8], xname[9] };
 
 static int misctab[OP_NMISC]; static int nmisc;
 
@@ -506,9 +559,21 @@ static void build_alphabet(void) {
   misctab[nmisc++] = OP_ASSIGN_FULL;
   misctab[nmisc++] = OP_NEW_ARGS;
   if (alias_op) misctab[nmisc++] = OP_SET_ALIAS;
+  nforeign = 0;
+  for (size_t q = 0; q < sizeof type_pairs / sizeof type_pairs[0]; q++)
+    if ((type_pairs[q].kk == kkind) != (type_pairs[q].vk == vkind) && nforeign < 3) foreign[nforeign++] = type_pairs[q];
+  for (int j = 0; j < nforeign; j++) {
+    snprintf(xname[j], sizeof xname[j], "A=assign(empty Tree<%s,%s>,A)", kkname(foreign[j].kk), vkname(foreign[j].vk));
+    snprintf(xname[3 + j], sizeof xname[j], "A=assign(filled Tree<%s,%s>,A)", kkname(foreign[j].kk), vkname(foreign[j].vk));
+    snprintf(xname[6 + j], sizeof xname[j], "B=filled Tree<%s,%s>; assign(B,A)", kkname(foreign[j].kk), vkname(foreign[j].vk));
+  }
+  snprintf(xname[9], sizeof xname[9], "A=assign(filled Tree, assign(filled Table, A))");
+  if (cross_op) for (int j = 0; j < nforeign; j++) { misctab[nmisc++] = OP_X_EMPTY0 + j; misctab[nmisc++] = OP_X_FULL0 + j; }
+  if (table_op) misctab[nmisc++] = OP_VIA_TABLE;
   if (two) {
     for (int o = OP_B_COPY; o <= OP_B_REM; o++) misctab[nmisc++] = o;
     if (propC10) misctab[nmisc++] = OP_SWAP;
+    if (cross_op) for (int j = 0; j < nforeign; j++) misctab[nmisc++] = OP_B_X0 + j;
   }
   if (propC12) for (int o = OP_F_GET_WRONGKEY; o < OP_NMISC; o++) misctab[nmisc++] = o;
 }
@@ -594,6 +659,55 @@ static int apply_inner(int op) {
     if (m == OP_ASSIGN_FULL) { set(R[2], keyobj[0], valarg(0, vb)); set(R[2], keyobj[K - 1], valarg(K - 1, vb)); if (K > 2) set(R[2], keyobj[K / 2], valarg(K / 2, 0)); }
     e = VF_CATCH(assign(R[2], TA));
     if (e) { vf_violation(L("raises"), NULL, "assign raised %s", vf_exc_name(e)); del_raw(R[2]); R[2] = NULL; return VF_BAD; }
+    del_tree(TA, A_managed); TA = R[2]; R[2] = NULL; A_managed = 0;
+    return VF_OK; }
+  case OP_X_EMPTY0: case OP_X_EMPTY1: case OP_X_EMPTY2: case OP_X_FULL0: case OP_X_FULL1: case OP_X_FULL2: {
+    /* the target was constructed (and, for "filled", used) with other element types that share
+    ** exactly one side with A's: afterwards it must be a tree of A's types in every respect */
+    int fill = m >= OP_X_FULL0;
+    int j = fill ? m - OP_X_FULL0 : m - OP_X_EMPTY0;
+    if (j >= nforeign) return VF_SKIP;
+    static char kb[64];
+    snprintf(kb, sizeof kb, "assign-into-%s-%s-%s-tree", fill ? "filled" : "empty", kkname(foreign[j].kk), vkname(foreign[j].vk));
+    kind(kb);
+    R[2] = mk_foreign(Tree, foreign[j], fill);
+    e = VF_CATCH(assign(R[2], TA));
+    if (e) { vf_violation(L("raises"), NULL, "assign raised %s", vf_exc_name(e)); del_raw(R[2]); R[2] = NULL; return VF_BAD; }
+    del_tree(TA, A_managed); TA = R[2]; R[2] = NULL; A_managed = 0;
+    return VF_OK; }
+  case OP_B_X0: case OP_B_X1: case OP_B_X2: {
+    int j = m - OP_B_X0;
+    if (!two || j >= nforeign) return VF_SKIP;
+    static char kb[64];
+    snprintf(kb, sizeof kb, "assign(B,A)-B-was-filled-%s-%s-tree", kkname(foreign[j].kk), vkname(foreign[j].vk));
+    kind(kb);
+    if (TB) { del_tree(TB, B_managed); TB = NULL; }
+    TB = mk_foreign(Tree, foreign[j], 1); B_managed = 0;
+    e = VF_CATCH(assign(TB, TA));
+    if (e) { vf_violation(L("raises"), NULL, "assign raised %s", vf_exc_name(e)); return VF_BAD; }
+    MB = MA;
+    return VF_OK; }
+  case OP_VIA_TABLE: {
+    /* map <-> map across kinds: Table<K',V'> := A, then Tree<K',V'> := that table */
+    kind("assign-through-table");
+    struct tpair fp = nforeign ? foreign[0] : (struct tpair){ kkind, vkind };
+    R[3] = mk_foreign(Table, fp, 1);
+    e = VF_CATCH(assign(R[3], TA));
+    if (e) { vf_violation(L("raises"), NULL, "assign(table, tree) raised %s", vf_exc_name(e)); del_raw(R[3]); R[3] = NULL; return VF_BAD; }
+    int tbad = 0;
+    if (len(R[3]) != l || key_type(R[3]) != KT || val_type(R[3]) != VT) tbad = 1;
+    for (int i = 0; i < K && !tbad; i++) {
+      if ((bool)mem(R[3], keyobj[i]) != (bool)MA.present[i]) tbad = 1;
+      else if (MA.present[i]) {
+        var g = get(R[3], keyobj[i]);
+        if (val_at(g, i) != MA.val[i]) tbad = 1;
+      }
+    }
+    if (tbad) { vf_violation(L("table-differs"), NULL, "the Table assigned from the tree does not hold the tree's bindings / element types"); del_raw(R[3]); R[3] = NULL; return VF_BAD; }
+    R[2] = mk_foreign(Tree, fp, 1);
+    e = VF_CATCH(assign(R[2], R[3]));
+    del_raw(R[3]); R[3] = NULL;
+    if (e) { vf_violation(L("raises"), NULL, "assign(tree, table) raised %s", vf_exc_name(e)); del_raw(R[2]); R[2] = NULL; return VF_BAD; }
     del_tree(TA, A_managed); TA = R[2]; R[2] = NULL; A_managed = 0;
     return VF_OK; }
   case OP_NEW_ARGS: {
@@ -1096,13 +1210,15 @@ int main(int argc, char** argv) {
   two = (int)vf_param_i("two", 0);
   memo = (int)vf_param_i("memo", 1);
   alias_op = (int)vf_param_i("alias", 0);
+  cross_op = (int)vf_param_i("cross", 0);
+  table_op = (int)vf_param_i("table", 0);
   const char* prop = vf_param("prop", "C03");
   propC05 = strcmp(prop, "C05") == 0;
   propC09 = strcmp(prop, "C09") == 0;
   propC10 = strcmp(prop, "C10") == 0;
   propC12 = strcmp(prop, "C12") == 0;
   pairs_mode = vf_param_is("mode", "pairs", "bfs") || propC09;
-  if (kkind == 2 || vkind == 2) propC05 = 1;     /* the ledger oracle is on whenever Probe elements are stored */
+  if (kkind == 2 || vkind == 2 || cross_op || table_op) propC05 = 1;     /* the ledger oracle is on whenever Probe elements are stored */
   vf_led_reset();
 
   KT = kkind == 0 ? Int : kkind == 1 ? String : Probe;
